@@ -335,7 +335,12 @@ def volatileImage (fs : Fs) : Image := ⟨fs.vdirs, fs.vfiles⟩
 /-! ### `_write_file` as a statement skeleton (extracted from the AST on every run) -/
 
 inductive Sk
-  | scanNew               -- new_entry_dirs = _dirs_gaining_entry(path)
+  | scanNew (root : Option Nat)
+                          -- new_entry_dirs = _dirs_gaining_entry(path).  `none`: the parents of the
+                          -- components that do not exist yet (main up to 8d93190); `some n`: in
+                          -- addition the whole chain from the file's directory up to the directory
+                          -- holding the store root, the root being the ancestor with n components
+                          -- (existence is not taken to mean that an entry is durable)
   | makedirs              -- os.makedirs(parent, exist_ok=True)
   | openWb                -- with open(path, 'wb') as f:
   | write                 -- f.write(new_file_contents)   (into the BufferedWriter)
@@ -345,10 +350,13 @@ inductive Sk
   | fsyncNew (cond : Bool) -- for d in new_entry_dirs: _fsync_dir(d)
 deriving DecidableEq, Repr
 
-/-- `_dirs_gaining_entry`: the parent of every component of `k` that does not exist yet,
-    deepest first -/
-def newParents (fs : Fs) (k : Path) : List Path :=
-  ((if fs.isFile k then [] else [k]) ++ ((ancestors k).reverse.filter fun a => !fs.isDir a)).map parent
+/-- `_dirs_gaining_entry`: the parent of every component of `k` that does not exist yet — and, with
+    `root = some n`, of every component at or below the store root (n components) whether it exists
+    or not — deepest first -/
+def newParents (root : Option Nat) (fs : Fs) (k : Path) : List Path :=
+  let t := root.getD (k.length + 1)
+  ((if fs.isFile k && decide (k.length < t) then [] else [k]) ++
+   ((ancestors k).reverse.filter fun a => decide (t ≤ a.length) || !fs.isDir a)).map parent
 
 structure SkSt where
   st  : St
@@ -363,7 +371,7 @@ def SkSt.flush (v : Variant) (x : SkSt) (k : Path) : SkSt :=
   if x.buf.isEmpty then x else { x.emit v [.write k x.buf] with buf := [] }
 
 def skStep (v : Variant) (flag : Bool) (bufsize : Nat) (k : Path) (val : Bytes) (x : SkSt) : Sk → SkSt
-  | .scanNew => { x with new := newParents x.st.fs k }
+  | .scanNew root => { x with new := newParents root x.st.fs k }
   | .makedirs => x.emit v (((ancestors k).filter fun a => !x.st.fs.isDir a).map Op.mkdir)
   | .openWb => x.emit v [.creatTrunc k]
   | .write =>
@@ -393,7 +401,10 @@ def traceOf (v : Variant) (sk : List Sk) (flag : Bool) (bufsize : Nat) : St → 
 /-- `_write_file` of the pinned tree (2f5072a): no flush, no directory fsync -/
 def skPinned : List Sk := [.makedirs, .openWb, .write, .fsync true, .close]
 /-- `_write_file` after the two `fix:` commits of branch fix-c17 -/
-def skFixed : List Sk := [.scanNew, .makedirs, .openWb, .write, .flush true, .fsync true, .close, .fsyncNew true]
+def skFixedOf (root : Option Nat) : List Sk :=
+  [.scanNew root, .makedirs, .openWb, .write, .flush true, .fsync true, .close, .fsyncNew true]
+/-- main up to 8d93190: only directories that gain an entry in THIS set are synced -/
+def skFixed : List Sk := skFixedOf none
 
 /-! ### driver -/
 
@@ -440,8 +451,11 @@ def parseOp (s : String) : Option Op :=
   | _ => none
 
 def parseSk (s : String) : Option Sk :=
+  match s.splitOn ":" with
+  | ["scanall", n] => n.toNat?.map fun r => .scanNew (some r)
+  | _ =>
   match s with
-  | "scan" => some .scanNew
+  | "scan" => some (.scanNew none)
   | "makedirs" => some .makedirs
   | "open" => some .openWb
   | "write" => some .write
